@@ -399,6 +399,12 @@ func (core JApiCore) addRequest(d *directive.Directive) *jerr.JApiError {
 }
 
 func (core JApiCore) addResponse(d *directive.Directive) *jerr.JApiError {
+	// The annotation of a Body directive has no place in the catalog: it is refused below a Request, and
+	// it was dropped silently below a response.
+	if d.Type() == directive.Body && d.Annotation != "" {
+		return d.KeywordError(jerr.AnnotationIsForbiddenForTheDirective)
+	}
+
 	schemaNotationParam := d.NamedParameter("SchemaNotation")
 	typeParam := d.NamedParameter("Type")
 
